@@ -128,10 +128,10 @@ def main():
     run.cov["distinct_nontrivial"] = nconds
     run.cov["rule"] = ("every (method,row,unordered rooted tree with <= advertised order nodes) condition evaluated in float64 on the "
                        "real tableau (independent Python enumeration: 1,1,2,4,9 trees of order 1..5); each is distinct by construction")
-    for k in range(0, 13 if quick else 30):
+    for k in range(0, 61):      # every order a user can ask for in practice; the factorial must not be taken in fixed-width integers
         te = TaylorExpansion(k)
         exp = np.array([1.0 / math.factorial(i) for i in range(k + 1)])
-        if te.coeff.shape != exp.shape or np.max(np.abs(te.coeff / exp - 1)) > 4e-16:
+        if te.coeff.shape != exp.shape or np.max(np.abs(te.coeff / exp - 1)) > 4e-15:   # a few ulp: scipy evaluates k! through the gamma function
             run.violation("taylor", dict(order=k, coeff=te.coeff.tolist(), expected=exp.tolist(),
                                          what="Taylor propagator coefficients are not 1/k!"))
             break
@@ -151,7 +151,7 @@ def main():
         for i in range(len(t["b"])):
             reqs += [f"violation {m} {i}", f"ticoeff {m} {i}"]
         reqs += [f"rowsums {m}", f"shape {m}"]
-    reqs += [f"taylor {k}" for k in (0, 1, 5, 12)]
+    reqs += [f"taylor {k}" for k in (0, 1, 5, 12, 25, 40)]
     try:
         rep = dict(zip(reqs, common.run_driver("RenoVerif/Driver/C19.lean", reqs)))
     except Infra:
@@ -184,11 +184,11 @@ def main():
                     found[(m, i)]["lean_first_violation"] = v
             if rep[f"rowsums {m}"] != "true" and f"nodes:{m}" not in [s for s, _, _ in run.violations]:
                 run.violation(f"nodes:{m}", dict(method=m, what="exact row sums differ from nodes (model)"))
-        for k in (0, 1, 5, 12):
+        for k in (0, 1, 5, 12, 25, 40):
             programs += 1
             mc = [Fraction(x) for x in rep[f"taylor {k}"].split()]
             te = TaylorExpansion(k).coeff
-            if len(mc) != len(te) or max(abs(float(x) / y - 1) for x, y in zip(mc, te)) > 4e-16:
+            if len(mc) != len(te) or max(abs(float(x) / y - 1) for x, y in zip(mc, te)) > 4e-15:
                 disagreements += 1
                 run.violation("corr:taylor", dict(correspondence="taylorCoeff vs TaylorExpansion", k=k), no_input=True)
     run.cov["programs"] = programs
